@@ -347,6 +347,8 @@ def runStep (w : World) (j : Json) : Except String (Except Err (Option Nat) × W
     return (if devLocalW w then .ok none else .error (.raised "a sharding spec targets a value that is not an input/output of its node"), w)
   | "wellFormed2" =>
     return (if wellFormed2 w then .ok none else .error (.raised "dangling pointer (extended)"), w)
+  | "closedW" =>
+    return (if closedW w then .ok none else .error (.raised "a pointer field names no cell"), w)
   | op => throw s!"unknown step {op}"
 
 def handle : Handler := fun m j =>
@@ -401,6 +403,29 @@ def handle : Handler := fun m j =>
     -- cloner state, exactly what `graphClone` runs before it forgets the map
     let w0 ← (← getArr j "world").mapM asCell
     let fuel := (j.getObjValAs? Nat "fuel").toOption.getD 64
+    let vmJ := fun (vm : List (Nat × Nat)) => Json.arr (vm.reverse.map fun p => Json.arr #[natJ p.1, natJ p.2]).toArray
+    -- `Model.clone` (C13_wiring_image_model): one value map per cloner (main graph, then every function);
+    -- `same`: clone and heap are those of `modelClone`
+    if let .ok mo := j.getObjValAs? Nat "mo" then
+      let (r, s') := modelCloneTrace fuel mo { w := w0 }
+      let (r0, w0') := run (modelClone fuel mo) w0
+      let same := (match r, r0 with
+        | .ok x, .ok y => x.1 == y
+        | .error _, .error _ => true
+        | _, _ => false) && s'.w == w0'
+      return obj [("outcome", outcomeJ (r.map fun x => some x.1)), ("same", same),
+                  ("vms", Json.arr ((match r with | .ok x => x.2 | .error _ => []).map vmJ).toArray),
+                  ("world", Json.arr (s'.w.map cellJ).toArray)]
+    -- `Function.clone` (C13_wiring_image_function): `funcCloneCore` under a fresh cloner state
+    if let .ok f := j.getObjValAs? Nat "f" then
+      let (r, s') := funcCloneCore fuel f { w := w0 }
+      let (r0, w0') := run (funcClone fuel f) w0
+      let same := (match r, r0 with
+        | .ok x, .ok y => x == y
+        | .error _, .error _ => true
+        | _, _ => false) && s'.w == w0'
+      return obj [("outcome", outcomeJ (r.map some)), ("same", same), ("vms", Json.arr #[vmJ s'.vm]),
+                  ("world", Json.arr (s'.w.map cellJ).toArray)]
     let (r, s') := cloneGraph (← getBool j "allow") fuel (← getNat j "g") { w := w0 }
     return obj [("outcome", outcomeJ (r.map some)),
                 ("vm", Json.arr (s'.vm.reverse.map fun p => Json.arr #[natJ p.1, natJ p.2]).toArray),
@@ -437,6 +462,105 @@ def handle : Handler := fun m j =>
     return obj [("outcome", outcomeJ (r.map some)), ("world", Json.arr (w1.map cellJ).toArray),
                 ("declared", obj [("inPlace", d.inPlace), ("changesInput", d.changesInput)]),
                 ("declined", declined)]
+  | "clone.functionalizeHooks" => some do
+    -- `functionalize(P)(model)` with `requires` / `ensures` hooks, `modified` flags and `early_stop`
+    -- (C13_functionalize_hooks).  The harness sends one pass list PER ROUND (same declarations, the histories of the
+    -- hooks and of `call`, whether a hook raises and the reported `modified` flag may differ per call); the rounds are
+    -- glued here exactly as `runRoundsH` does, from the model's own `runStagesH` / `runHook` / `callChecked`; with one
+    -- pass list the answer is checked against `functionalizeHooks` itself (`agrees`).
+    let w0 ← (← getArr j "world").mapM asCell
+    let fuel := (j.getObjValAs? Nat "fuel").toOption.getD 64
+    let mo ← getNat j "mo"
+    let steps ← getNat j "steps"
+    let earlyStop ← getBool j "earlyStop"
+    let hookOf := fun (hj : Json) => do
+      let edits ← (← getArr hj "edits").mapM asEdit2
+      let raises ← getBool hj "raises"
+      pure ({ edits := fun _ _ => edits, raises := fun _ _ => raises } : Hook)
+    let rounds ← (← getArr j "rounds").mapM fun rj => do
+      (← getArr rj "passes").mapM fun sj => do
+        let edits ← (← getArr sj "edits").mapM asEdit2
+        let d : Decl := { inPlace := ← getBool sj "inPlace", changesInput := ← getBool sj "changesInput" }
+        let st ← match ← getStr sj "kind" with
+          | "inplace" => pure (Stage.inPlace (fun _ _ => edits))
+          | "rewrap" => do pure (Stage.rewrap (fun _ _ => edits) (← getNat sj "header"))
+          | k => throw s!"unknown stage kind {k}"
+        let md ← getBool sj "modified"
+        pure ({ decl := d, requires := ← hookOf (← sj.getObjVal? "requires"), stage := st,
+                ensures := ← hookOf (← sj.getObjVal? "ensures"), modified := fun _ _ => md } : PassH)
+    let outerReq ← hookOf (← j.getObjVal? "outerRequires")
+    let outerEns ← hookOf (← j.getObjVal? "outerEnsures")
+    let declines := fun (es : List Edit2) (w : World) => (runHistory2 es w).1.any fun x => match x with
+      | .error (.unsupported _) => true
+      | _ => false
+    let fin := fun (r : Except Err Nat) (w : World) (n : Nat) (declined agrees : Bool) =>
+      obj [("outcome", outcomeJ (r.map some)), ("world", Json.arr (w.map cellJ).toArray), ("rounds", natJ n),
+           ("declined", declined), ("agrees", agrees)]
+    match run (modelClone fuel mo) w0 with
+    | (.error e, w1) => return fin (.error e) w1 0 false true
+    | (.ok m', w1) =>
+      let mut declined := declines (outerReq.edits m' w1) w1
+      match runHook "PreconditionError" outerReq m' w1 with
+      | (.error e, w2) => return fin (.error e) w2 0 declined true
+      | (.ok _, w2) =>
+        let mut m := m'
+        let mut w := w2
+        let mut err : Option Err := none
+        let mut nrounds := 0
+        let mut stop := false
+        for k in [0:steps] do
+          if err.isSome || stop then break
+          let ps := rounds.getD k (rounds.getLastD [])
+          -- which edits does the model decline (`unsupported`)?  a scan with the pieces `callPassH` is made of
+          let mut mm := m
+          let mut ww := w
+          let mut dead := false
+          for p in ps do
+            if dead then break
+            declined := declined || declines (p.requires.edits mm ww) ww
+            match runHook "PreconditionError" p.requires mm ww with
+            | (.error _, _) => dead := true
+            | (.ok _, w1') =>
+              declined := declined || declines (p.stage.edits mm w1') w1'
+              match stageCall p.stage mm w1' with
+              | (.error _, _) => dead := true
+              | (.ok m1, w2') =>
+                declined := declined || declines (p.ensures.edits m1 w2') w2'
+                match runHook "PostconditionError" p.ensures m1 w2' with
+                | (.error _, _) => dead := true
+                | (.ok _, w3') =>
+                  match callChecked p.decl mm (.ok m1, w3') with
+                  | (.ok m2, w4') =>
+                    mm := m2
+                    ww := w4'
+                  | (.error _, _) => dead := true
+          match runStagesH ps m false w with
+          | (.error e, w3) =>
+            err := some e
+            w := w3
+            nrounds := nrounds + 1
+          | (.ok r, w3) =>
+            m := r.1
+            w := w3
+            nrounds := nrounds + 1
+            if !r.2 && earlyStop then stop := true
+        let ps0 := rounds.headD []
+        let uniform := rounds.length ≤ 1
+        let direct := functionalizeHooks fuel ps0 outerReq outerEns steps earlyStop mo w0
+        let same := fun (r : Except Err Nat) (w5 : World) => !uniform || (direct.2 == w5 && (match direct.1, r with
+          | .ok a, .ok b => a == b
+          | .error (.raised a), .error (.raised b) => a == b
+          | .error _, .error _ => true
+          | _, _ => false))
+        match err with
+        | some e => return fin (.error e) w nrounds declined (same (.error e) w)
+        | none =>
+          declined := declined || declines (outerEns.edits m w) w
+          match runHook "PostconditionError" outerEns m w with
+          | (.error e, w4) => return fin (.error e) w4 nrounds declined (same (.error e) w4)
+          | (.ok _, w4) =>
+            let (r, w5) := callChecked ⟨false, false⟩ mo (callChecked (seqDeclH ps0) m' (.ok m, w4))
+            return fin r w5 nrounds declined (same r w5)
   | "clone.functionalize" => some do
     -- `functionalize(pass)(model)` with the pass given as the edit history it performs
     let w0 ← (← getArr j "world").mapM asCell
